@@ -627,7 +627,11 @@ C06_Expect(r, inb, i, hPub) ==
                                                   !.cbs = IF hPub = 1 THEN Append(@, [any |-> {PArgs(p)}, opt |-> FALSE]) ELSE @], inb, i + 1, hPub)
      ELSE LET k == HeldPos(r.h, p.id)
               h2 == IF k = 0 THEN Append(r.h, [id |-> p.id, copies |-> {PArgs(p)}, soft |-> FALSE])
-                    ELSE [r.h EXCEPT ![k].copies = @ \cup {PArgs(p)}, ![k].soft = FALSE]
+                    \* a repetition (same message, DUP aside) adds a copy; a different message under the identifier is a new
+                    \* exchange (the broker has given up the old one): it is the one that has to be delivered
+                    ELSE IF \E x \in r.h[k].copies : [x EXCEPT !.dup = 0] = [PArgs(p) EXCEPT !.dup = 0]
+                         THEN [r.h EXCEPT ![k].copies = @ \cup {PArgs(p)}, ![k].soft = FALSE]
+                         ELSE [r.h EXCEPT ![k].copies = {PArgs(p)}, ![k].soft = FALSE]
           IN C06_Expect([r EXCEPT !.h = h2, !.acks = Append(@, <<"PUBREC", p.id>>)], inb, i + 1, hPub)
   ELSE IF p.t = "PUBREL" THEN
      LET k == HeldPos(r.h, p.id) IN
